@@ -26,6 +26,7 @@ type Config struct {
 	Preemptions     int
 	MaxThreads      int
 	NoTimers        bool
+	TimerHorizonNs  int64
 	RaceCheck       bool
 	StopOnViolation bool
 }
@@ -156,6 +157,7 @@ type EntrySpec struct {
 	Preemptions int      `json:"preemptions"`
 	MaxThreads  int      `json:"max_threads"`
 	NoTimers    bool     `json:"no_timers"`
+	TimerHorizonS int    `json:"timer_horizon_s"`
 	Fuel        int      `json:"fuel"`
 	Bounds      string   `json:"bounds"`
 	Mandatory   []string `json:"mandatory"` // cover labels / assert labels that must be reached
